@@ -2,6 +2,7 @@ package props
 
 import (
 	"bytes"
+	"errors"
 	"fmt"
 	"html/template"
 	"io"
@@ -172,11 +173,49 @@ func withWatchdog(f func() error) error {
 	return fmt.Errorf("HANG: pipeline did not return within 120s (second attempt)")
 }
 
+// stallReader delivers data[:at] and then reports "no bytes, no error" for ever, which the
+// io.Reader contract allows; it gives up with an error of its own after limit such calls so
+// that a scanner without a retry bound still comes back and can be told apart.
+type stallReader struct {
+	data   []byte
+	at     int
+	pos    int
+	stalls int
+	limit  int
+}
+
+var errStallLimit = errors.New("stall limit")
+
+func (r *stallReader) Read(p []byte) (int, error) {
+	if r.pos < r.at {
+		n := copy(p, r.data[r.pos:r.at])
+		r.pos += n
+		return n, nil
+	}
+	r.stalls++
+	if r.stalls > r.limit {
+		return 0, errStallLimit
+	}
+	return 0, nil
+}
+
 func c03Oracle(c c03Case) error {
 	x := bytes.ReplaceAll(c.X, []byte("@FIX@"), []byte(fixtureDir()))
 	return withWatchdog(func() error {
 		_, _, err := robust(x, c03Opts(c.Mode), true)
-		return err
+		if err != nil {
+			return err
+		}
+		// A source that stops making progress at some offset: the scan gives up after a bounded
+		// number of empty reads instead of spinning.
+		if len(x) > 0 {
+			sr := &stallReader{data: x, at: int(digestBytes(x) % uint64(len(x)+1)), limit: 100000}
+			_, _, e := stack.ScanSnapshot(sr, io.Discard, c03Opts(c.Mode))
+			if sr.stalls > 10000 {
+				return fmt.Errorf("the reader returned (0, nil) from offset %d on: ScanSnapshot kept calling Read more than %d times (err=%v) instead of giving up", sr.at, sr.stalls-1, e)
+			}
+		}
+		return nil
 	})
 }
 
